@@ -181,7 +181,9 @@ def main(argv):
     repo, out = Path(argv[1]), Path(argv[2])
     try:
         tables = extract_all(repo)
-    except ExtractError as e:
+    except Exception as e:
+        if type(e).__name__ != "ExtractError":      # (extract_more sees this module under another name)
+            raise
         print(str(e), file=sys.stderr)
         return 3
     text = emit(tables)
